@@ -71,6 +71,50 @@ func valueLit(v wref.Value) string {
 	}
 }
 
+// computedZeroDivisor reports whether every zero divisor of an integer / or % in e is a computed value
+// (a call, a unary or binary expression ...) rather than a literal or a named constant.
+func computedZeroDivisor(e wgen.Expr, decls []*wgen.Var) bool {
+	plain, computed := false, false
+	wgen.WalkExpr(e, func(x wgen.Expr) bool {
+		b, ok := x.(*wgen.Binary)
+		if !ok || (b.Op != "/" && b.Op != "%") || b.R.Type() == nil || !intKind(b.R.Type().S) {
+			return true
+		}
+		v, class, _ := wref.ConstEval(b.R, b.R.Type(), decls)
+		switch b.R.(type) {
+		case *wgen.Lit, *wgen.VarRef:
+			if class == wref.ConstValue && isZeroValue(v) {
+				plain = true
+			}
+		default:
+			// a computed divisor that is zero, or whose own evaluation is already an error
+			if class != wref.ConstValue || isZeroValue(v) {
+				computed = true
+			}
+		}
+		return true
+	})
+	return computed && !plain
+}
+
+func intKind(k wgen.Kind) bool { return k == wgen.I32 || k == wgen.U32 || k == wgen.AbsInt }
+
+// isZeroValue reports whether every component of an integer value is zero.
+func isZeroValue(v wref.Value) bool {
+	if len(v.E) > 0 {
+		for _, c := range v.E {
+			if isZeroValue(c) {
+				return true // a zero lane is enough for a component-wise division to fail
+			}
+		}
+		return false
+	}
+	if v.T != nil && v.T.S == wgen.AbsInt {
+		return v.I == 0
+	}
+	return v.B == 0
+}
+
 // build prints the constant program (and the run-time twin when the
 // expression is fully concrete) and computes the expected output.
 func build(cc *wgen.ConstCase) (*Case, bool) {
@@ -405,6 +449,11 @@ func TestPropConst(t *testing.T) {
 			return
 		}
 		if c.Class == "must-reject" && strings.Contains(c.Why, "division by zero") && !strings.HasPrefix(c.Site, "module-const") && ev.Excluded("const.divzero.non-module-site") {
+			return
+		}
+		if c.Class == "must-reject" && strings.Contains(c.Why, "division by zero") && !strings.HasPrefix(c.Site, "module-const") &&
+			computedZeroDivisor(cc.E, cc.Decls) && ev.Excluded("const.divzero.computed-divisor") {
+			// open finding C06-20: outside module-scope consts only a literal or named-constant zero divisor is diagnosed
 			return
 		}
 		o := judge(c)
